@@ -623,6 +623,11 @@ pub fn run(prop: u8, tier: &str) -> Report {
         rep.set("long_run_inputs_evaluated", json!(n));
         rep.set("longest_list", json!(longest));
         {
+            let (n, v) = crate::checks::longlists::compact_refusal_circuit(if prop == 8 { "C08/after-call" } else { "C10/after-call" });
+            g.sink.extend(v);
+            rep.set("compact_call_pairs_incl_refused", json!(n));
+        }
+        {
             let (n, v) = crate::checks::longlists::call_ladders(if prop == 8 { "C08/after-many-calls" } else { "C10/after-many-calls" }, &["compact"]);
             g.sink.extend(v);
             rep.set("call_ladder_calls", json!(n));
